@@ -475,7 +475,8 @@ func checkExactlyOnce(vd *Verdict, v *prioView) {
 		if len(delivered) < len(want) {
 			vd.fail("not-delivered", "%d items written, %d delivered within %dns although every handler releases (%s)", len(want), len(delivered), sc.Horizon, stuck(v.res))
 		} else if !v.res.Aborted {
-			vd.Inconclusive = "everything delivered but the run did not end: " + stuck(v.res)
+			// exactly-once holds for this run; that the run did not end is C07's business
+			vd.probe("all-delivered-run-not-ended")
 		}
 
 		return
